@@ -45,6 +45,12 @@ type Controller interface {
 	// (used for goroutines that were not released by the controller, e.g.
 	// woken by a timer, so that their order is a scheduling decision too).
 	Yield() bool
+	// Released is called, in controlled mode, by a goroutine that has just
+	// released a lock other goroutines are waiting for. The controller may
+	// park it there: whether the releaser or a waiter runs next is a
+	// scheduling decision (on a real machine the waiter can overtake the
+	// releaser's very next instruction).
+	Released()
 }
 
 var ctl atomic.Pointer[Controller]
@@ -226,9 +232,15 @@ func (c *core) unlock(k lockKind) {
 	if len(c.q) > 0 {
 		wake = c.handoff()
 	}
+	waiting := len(c.q) > 0
 	c.g.Unlock()
 	for _, w := range wake {
 		close(w.ch)
+	}
+	if waiting {
+		if ct := controller(); ct != nil && ct.Controlled() {
+			ct.Released()
+		}
 	}
 }
 
